@@ -10,27 +10,27 @@ fn run_focus(cfg: &Cfg, focus: &'static str, level: &str, rule: &str, assumption
     let budget = Duration::from_secs(tier.pick(300, 1700));
     // realistic network (whale provides the network pledge)
     let hc = HistCfg { variant: Variant::WithWhale, nops: tier.pick(90, 160), dense: false, min_power: 4096, fault_prob, enumerate_faults, tail_days: 0 };
-    agg.run_parallel("miners", tier.pick(24, 900), budget, |i, rng| history(i, rng, &hc, focus));
+    agg.run_parallel("miners", tier.pick(24, 450), budget, |i, rng| history(i, rng, &hc, focus));
     // fully dense ticks, shorter
     let hd = HistCfg { variant: Variant::WithWhale, nops: tier.pick(40, 70), dense: true, min_power: 2048 * 6, fault_prob, enumerate_faults, tail_days: 0 };
-    agg.run_parallel("miners-dense", tier.pick(6, 100), budget, |i, rng| history(i, rng, &hd, focus));
+    agg.run_parallel("miners-dense", tier.pick(6, 50), budget, |i, rng| history(i, rng, &hd, focus));
     // miners exactly as created, alone in the world
     let ha = HistCfg { variant: Variant::AsCreated, nops: tier.pick(60, 120), dense: false, min_power: 4096, fault_prob, enumerate_faults, tail_days: 0 };
-    agg.run_parallel("miners-as-created", tier.pick(12, 300), budget, |i, rng| history(i, rng, &ha, focus));
+    agg.run_parallel("miners-as-created", tier.pick(12, 150), budget, |i, rng| history(i, rng, &ha, focus));
     if focus == "C05" || focus == "C04" || focus == "C15" || focus == "C02" {
         // fault time-outs: few ops, then 45 days of chain time with whatever is faulty left faulty
         let hf = HistCfg { variant: Variant::WithWhale, nops: tier.pick(40, 60), dense: false, min_power: 4096, fault_prob, enumerate_faults: false, tail_days: 45 };
-        agg.run_parallel("miners-fault-timeout", tier.pick(8, 150), budget, |i, rng| history(i, rng, &hf, focus));
+        agg.run_parallel("miners-fault-timeout", tier.pick(8, 80), budget, |i, rng| history(i, rng, &hf, focus));
     }
     if focus == "C14" {
         // whole vesting schedules: few ops, then more than 180 days of chain time
         let hv = HistCfg { variant: Variant::WithWhale, nops: tier.pick(30, 50), dense: false, min_power: 4096, fault_prob, enumerate_faults, tail_days: 190 };
-        agg.run_parallel("miners-vesting-tail", tier.pick(8, 120), budget, |i, rng| history(i, rng, &hv, focus));
+        agg.run_parallel("miners-vesting-tail", tier.pick(8, 60), budget, |i, rng| history(i, rng, &hv, focus));
     }
     if focus == "C01" {
         // the other fund-holding actors: payment channels (solvency + conservation) and the market
-        agg.run_parallel("paych", tier.pick(300, 5000), budget, |i, rng| super::c16::history(i, rng, tier, "C01"));
-        agg.run_parallel("market", tier.pick(40, 800), budget, |i, rng| super::c06::history(i, rng, tier, "C01"));
+        agg.run_parallel("paych", tier.pick(300, 3000), budget, |i, rng| super::c16::history(i, rng, tier, "C01"));
+        agg.run_parallel("market", tier.pick(40, 400), budget, |i, rng| super::c06::history(i, rng, tier, "C01"));
     }
     agg.finish(level, rule, tier.pick(16, 300), assumptions, serde_json::json!({}))
 }
